@@ -1,8 +1,8 @@
 SPECIFICATION Spec
 CONSTANTS
   KeyArgs <- MCKeys
-  ValArgs = {"v1", "VOVER"}
-  MaxTx = 3
+  ValArgs = {"v1", "VEMPTY", "VOVER"}
+  MaxTx = 4
   Role = "replica"
   MaxKeyLen = 4096
   MaxValLen = 10485760
